@@ -33,7 +33,10 @@ use scylla_cql::frame::request::execute::ExecuteV2;
 use scylla_cql::frame::request::query::{PagingState, Query, QueryParameters};
 use scylla_cql::frame::request::register::{Register, RegisterV2};
 use scylla_cql::frame::request::{AuthResponse, Options, Prepare, SerializableRequest, Startup};
-use scylla_cql::frame::response::result::{ColumnType, NativeType};
+use scylla_cql::frame::response::result::{ColumnSpec, ColumnType, NativeType, TableSpec};
+use scylla_cql::serialize::batch::BatchValuesFromIterator;
+use scylla_cql::serialize::raw_batch::RawBatchValuesAdapter;
+use scylla_cql::serialize::row::RowSerializationContext;
 use scylla_cql::frame::server_event_type::{EventType, EventTypeV2};
 use scylla_cql::frame::types::SerialConsistency;
 use scylla_cql::frame::{Compression, SerializedRequest};
@@ -89,6 +92,8 @@ enum Asked {
         ts: Option<i64>,
         stmts: Vec<Stmt>,
         values: Vec<Vec<Val>>,
+        /// `Some((carrier, context column counts per statement))`: the values go through `RawBatchValuesAdapter`
+        adapter: Option<(String, Vec<usize>)>,
     },
 }
 
@@ -255,7 +260,13 @@ fn asked_of(kind: &str, f: &[&str]) -> Option<Asked> {
             }
             Some(Asked::Startup(m))
         }
-        "batch" if f.len() >= 5 => {
+        "batch" | "abatch" if f.len() >= 6 || (kind == "batch" && f.len() >= 5) => {
+            let (carrier, f) = if kind == "abatch" { (Some(f[0]), &f[1..]) } else { (None, f) };
+            if let Some(c) = carrier {
+                if !["vec", "iter", "tuple"].contains(&c) {
+                    return None;
+                }
+            }
             let ty = match f[0] {
                 "Logged" => BatchType::Logged,
                 "Unlogged" => BatchType::Unlogged,
@@ -268,14 +279,31 @@ fn asked_of(kind: &str, f: &[&str]) -> Option<Asked> {
             let rest = &f[4..];
             let slash = rest.iter().position(|w| *w == "/")?;
             let mut stmts = Vec::new();
+            let mut cols = Vec::new();
             for t in &rest[..slash] {
-                stmts.extend(repeated(t, '^', stmt_tok)?);
+                if carrier.is_some() {
+                    // `q:<text>[#cols]` / `p:<id>[#cols]`, optionally `^k`
+                    let sc = repeated(t, '^', |x| match x.split_once('#') {
+                        None => stmt_tok(x).map(|s| (s, 0usize)),
+                        Some((x, n)) => Some((stmt_tok(x)?, n.parse().ok()?)),
+                    })?;
+                    for (s, c) in sc {
+                        stmts.push(s);
+                        cols.push(c);
+                    }
+                } else {
+                    stmts.extend(repeated(t, '^', stmt_tok)?);
+                }
             }
             let mut values = Vec::new();
             for t in &rest[slash + 1..] {
                 values.extend(repeated(t, '^', values_tok)?);
             }
-            Some(Asked::Batch { ty, cons, serial, ts, stmts, values })
+            if carrier == Some("tuple") && !(1..=4).contains(&values.len()) {
+                return None;
+            }
+            let adapter = carrier.map(|c| (c.to_string(), cols));
+            Some(Asked::Batch { ty, cons, serial, ts, stmts, values, adapter })
         }
         _ => None,
     }
@@ -378,6 +406,16 @@ fn make<R: SerializableRequest>(
     Ok((sr.get_data().to_vec(), plain.get_data()[9.min(plain.get_data().len())..].to_vec()))
 }
 
+type Cell = MaybeUnset<Option<Vec<u8>>>;
+
+fn cell_of(v: &Val) -> Cell {
+    match v {
+        Val::Null => MaybeUnset::Set(None),
+        Val::Unset => MaybeUnset::Unset,
+        Val::Bytes(b) => MaybeUnset::Set(Some(b.clone())),
+    }
+}
+
 fn mk_params<'a>(p: &Params, sv: &'a SerializedValues) -> QueryParameters<'a> {
     QueryParameters {
         consistency: p.cons,
@@ -451,11 +489,7 @@ fn run_impl(a: &Asked, comp: Option<Compression>, tr: bool, stream: Option<i16>,
                 m.iter().map(|(k, v)| (Cow::Borrowed(k.as_str()), Cow::Borrowed(v.as_str()))).collect();
             make(&Startup { options }, comp, tr, stream)
         }
-        Asked::Batch { ty, cons, serial, ts, stmts, values } => {
-            let mut svs = Vec::with_capacity(values.len());
-            for v in values {
-                svs.push(mk_values(v)?);
-            }
+        Asked::Batch { ty, cons, serial, ts, stmts, values, adapter } => {
             let statements: Vec<BatchStatement> = stmts
                 .iter()
                 .map(|s| match s {
@@ -463,15 +497,58 @@ fn run_impl(a: &Asked, comp: Option<Compression>, tr: bool, stream: Option<i16>,
                     Stmt::Prepared(i) => BatchStatement::Prepared { id: Cow::Borrowed(i.as_slice()) },
                 })
                 .collect();
-            let b = Batch {
-                statements: Cow::Owned(statements),
-                batch_type: *ty,
-                consistency: *cons,
-                serial_consistency: *serial,
-                timestamp: *ts,
-                values: svs,
-            };
-            make(&b, comp, tr, stream)
+            match adapter {
+                None => {
+                    let mut svs = Vec::with_capacity(values.len());
+                    for v in values {
+                        svs.push(mk_values(v)?);
+                    }
+                    let b = Batch {
+                        statements: Cow::Owned(statements),
+                        batch_type: *ty,
+                        consistency: *cons,
+                        serial_consistency: *serial,
+                        timestamp: *ts,
+                        values: svs,
+                    };
+                    make(&b, comp, tr, stream)
+                }
+                Some((carrier, cols)) => {
+                    // typed rows + one RowSerializationContext per statement, as Connection::batch_with_consistency does
+                    let rows: Vec<Vec<Cell>> = values.iter().map(|v| v.iter().map(cell_of).collect()).collect();
+                    let specs: Vec<Vec<ColumnSpec<'static>>> = cols
+                        .iter()
+                        .map(|n| {
+                            (0..*n)
+                                .map(|_| ColumnSpec::borrowed("c", ColumnType::Native(NativeType::Blob), TableSpec::borrowed("ks", "t")))
+                                .collect()
+                        })
+                        .collect();
+                    let contexts = specs.iter().map(|s| RowSerializationContext::from_specs(s.as_slice()));
+                    macro_rules! go {
+                        ($bv:expr) => {{
+                            let b = Batch {
+                                statements: Cow::Owned(statements),
+                                batch_type: *ty,
+                                consistency: *cons,
+                                serial_consistency: *serial,
+                                timestamp: *ts,
+                                values: RawBatchValuesAdapter::new($bv, contexts),
+                            };
+                            make(&b, comp, tr, stream)
+                        }};
+                    }
+                    match (carrier.as_str(), rows.len()) {
+                        ("vec", _) => go!(&rows),
+                        ("iter", _) => go!(BatchValuesFromIterator::new(rows.iter())),
+                        ("tuple", 1) => go!((&rows[0],)),
+                        ("tuple", 2) => go!((&rows[0], &rows[1])),
+                        ("tuple", 3) => go!((&rows[0], &rows[1], &rows[2])),
+                        ("tuple", 4) => go!((&rows[0], &rows[1], &rows[2], &rows[3])),
+                        _ => Err("bad-carrier".into()),
+                    }
+                }
+            }
         }
     }
 }
@@ -660,7 +737,7 @@ fn check_body(a: &Asked, body: &[u8]) -> R<()> {
                 return Err("STARTUP options differ from the requested map".into());
             }
         }
-        Asked::Batch { ty, cons, serial, ts, stmts, values } => {
+        Asked::Batch { ty, cons, serial, ts, stmts, values, .. } => {
             let want_ty = match ty {
                 BatchType::Logged => 0u8,
                 BatchType::Unlogged => 1,
@@ -1132,6 +1209,100 @@ pub fn generate(rng: &mut Rng, tier: Tier, emit: &mut dyn FnMut(String)) {
         emit(format!("batch none 0 N Logged One N N q:78^{} / _^{n}", n - 1));
         emit(format!("batch snappy 1 N Logged One N N q:78 p:y{n} / _"));
         emit(format!("batch none 0 N Logged One N N p:y{n}^2 / _ _ _"));
+    }
+
+    // (4b) BATCH through RawBatchValuesAdapter (typed rows + per-statement contexts: the session's path).
+    // Realistic shape: unprepared statements carry no values (context of 0 columns), prepared ones a context with as
+    // many columns as the row has values; then count mismatches both ways and context mismatches.
+    let carriers = ["vec", "iter", "tuple"];
+    let adapter_case = |rng: &mut Rng, head: &str, carrier: &str, nst: usize, nvl: usize, kinds: u32, ctx_off: Option<usize>, fl: u32| -> String {
+        let ty = tys[(nst + nvl + fl as usize) % 3];
+        let cons = *rng.pick(&CONS_NAMES);
+        let serial = if fl & 1 != 0 { *rng.pick(&SERIALS) } else { "N" };
+        let ts = if fl & 2 != 0 { gen_i64_tok(rng) } else { "N".into() };
+        let mut vals: Vec<String> = Vec::new();
+        let mut stmts: Vec<String> = Vec::new();
+        for i in 0..nst.max(nvl) {
+            let prepared = kinds >> (i % 32) & 1 == 1;
+            let v = if prepared || i >= nst { gen_values_tok(rng, false) } else { "_".to_string() };
+            let n = values_tok(&v).map(|x| x.len()).unwrap_or(0);
+            if i < nvl {
+                vals.push(v);
+            }
+            if i < nst {
+                let cols = if ctx_off == Some(i) { n + 1 } else { n };
+                stmts.push(if prepared {
+                    format!("p:{}#{cols}", gen_bytes_tok(rng, false))
+                } else {
+                    format!("q:{}#{cols}", gen_text_tok(rng, false))
+                });
+            }
+        }
+        let carrier = if carrier == "tuple" && !(1..=4).contains(&nvl) { "vec" } else { carrier };
+        format!("abatch {head} {carrier} {ty} {cons} {serial} {ts} {} / {}", stmts.join(" "), vals.join(" ")).replace("  ", " ")
+    };
+    for nst in 0..4usize {
+        for nvl in 0..6usize {
+            for kinds in 0..(1u32 << nst) {
+                for (ci, carrier) in carriers.iter().enumerate() {
+                    let comp = COMPS[(kinds as usize + nvl + ci) % 3];
+                    let head = format!("{comp} {} N", (nst + ci) % 2);
+                    emit(adapter_case(rng, &head, carrier, nst, nvl, kinds, None, (kinds + nvl as u32) % 4));
+                }
+            }
+        }
+    }
+    for _ in 0..1500 * scale {
+        let head = gen_head(rng);
+        let nst = match rng.below(8) {
+            0 => 0,
+            1 => 1,
+            2 => rng.range(10, 40) as usize,
+            _ => rng.range(2, 6) as usize,
+        };
+        let nvl = match rng.below(8) {
+            0 => nst + 1,
+            1 => nst + rng.range(2, 50) as usize,
+            2 => nst.saturating_sub(1),
+            3 => rng.below(nst as u64 + 1) as usize,
+            _ => nst,
+        };
+        let kinds = rng.next() as u32;
+        let ctx_off = if nst > 0 && rng.chance(1, 8) { Some(rng.below(nst as u64) as usize) } else { None };
+        let carrier = *rng.pick(&carriers);
+        let fl = rng.below(4) as u32;
+        emit(adapter_case(rng, &head, carrier, nst, nvl, kinds, ctx_off, fl));
+    }
+    for carrier in ["vec", "iter"] {
+        for n in [65534usize, 65535, 65536, 65537] {
+            emit(format!("abatch none 0 N {carrier} Logged One N N p:01#{n} / 00*{n}"));
+            emit(format!("abatch none 0 N {carrier} Logged One N N q:78 p:01#{n} / _ N*{n} _"));
+            emit(format!("abatch none 0 N {carrier} Logged One N N q:78^{n} / _^{n}"));
+            emit(format!("abatch none 0 N {carrier} Logged One N N q:78^{} / _^{n}", n - 1));
+            emit(format!("abatch none 0 N {carrier} Logged One N N q:78^{n} / _^{}", n - 1));
+            emit(format!("abatch lz4 0 N {carrier} Logged One N N q:78 p:y{n}#1 / _ 00"));
+        }
+        // many surplus value lists after the last statement
+        emit(format!("abatch none 0 N {carrier} Counter Two N N p:01#1 / 00 00^1000"));
+        emit(format!("abatch snappy 1 N {carrier} Counter Two Serial 3 q:78 p:01#2 / _ 00,N U"));
+    }
+    emit("abatch none 0 N tuple Logged One N N q:78 / _ _".to_string());
+    emit("abatch none 0 N tuple Logged One N N q:78 q:79 q:7a / _ _ _ _".to_string());
+    emit("abatch none 0 N tuple Logged One N N p:01#1 p:02#1 / 00".to_string());
+
+    // (4c) set_stream: both bytes of the stream id, positive and negative ids, every kind of frame
+    for st in [0i16, 1, 2, 127, 128, 255, 256, 257, 511, 512, 0x1234, 0x7f00, 0x00ff, 32766, 32767, -1, -2, -255, -256, -257, -32767, -32768] {
+        for comp in COMPS {
+            emit(format!("options {comp} 0 {st}"));
+            emit(format!("query {comp} 1 {st} 78 One N N N N 0 _"));
+        }
+        emit(format!("execute none 0 {st} 0102 N One N N N N 0 00"));
+        emit(format!("batch none 0 {st} Logged One N N q:78 / _"));
+        emit(format!("abatch none 0 {st} vec Logged One N N p:01#1 / 00"));
+        emit(format!("prepare none 0 {st} 78"));
+        emit(format!("startup none 0 {st} 6b=76"));
+        emit(format!("register none 0 {st} v1 StatusChange"));
+        emit(format!("auth none 0 {st} 00"));
     }
 
     // (5) STARTUP / REGISTER / AUTH_RESPONSE / OPTIONS
